@@ -234,4 +234,115 @@ def tasks(tier, seed):
     return out
 
 
+# -- enumerated real-runtime scenarios (NOT solver-decided; reported separately in evidence) ---------------
+def _lifecycle_scenario(population):
+    """real ServiceRunner: accept in a thread, shutdown() from this thread, then a new runner accepts again.
+    -> list of problems (empty = fine)"""
+    import asyncio
+    import time
+
+    from . import rt
+
+    problems = []
+    w = rt.World(accept_delay=0.02)
+    runner = w.runner
+    stop = w.stop_flag
+    beats = []
+
+    def successor_factory(depth):
+        async def sleeper():
+            try:
+                await asyncio.sleep(3600)
+            except asyncio.CancelledError:
+                if depth > 0:  # a payload that hands over to a successor while the runtime is closing
+                    runner.adopt(successor_factory(depth - 1), flavour=asyncio)
+                raise
+        return sleeper
+
+    try:
+        if population == "asyncio_sleeping":
+            runner.adopt(successor_factory(0), flavour=asyncio)
+        elif population == "asyncio_successor":
+            runner.adopt(successor_factory(1), flavour=asyncio)
+        elif population == "asyncio_successor_chain":
+            runner.adopt(successor_factory(3), flavour=asyncio)
+        elif population == "trio_sleeping":
+            async def tsleep():
+                await trio.sleep(3600)
+            runner.adopt(tsleep, flavour=trio)
+        elif population == "thread_blocked":
+            def blocked():
+                while not stop.is_set():
+                    time.sleep(0.01)
+            runner.adopt(blocked, flavour=threading)
+        elif population == "mixed":
+            for f in ("asyncio", "trio", "threading"):
+                runner.adopt(w.bystander(f, beats), flavour=rt.FLAVOURS[f])
+        w.start()
+        if not w.wait_running():
+            problems.append("runner never reported running")
+            return problems
+        # a concurrent accept is rejected and leaves the active runner undisturbed
+        other = ServiceRunner(accept_delay=0.02)
+        o, _ = rt.blocking(other.accept, bound=5)
+        if not (o.kind == "raise" and isinstance(o.exc, RuntimeError)):
+            problems.append("concurrent accept did not raise RuntimeError (%s)" % o.kind)
+        if not (runner.running.is_set() and w.thread.is_alive()):
+            problems.append("the active runner was disturbed by a rejected accept")
+        time.sleep(0.05)
+        o, t = rt.blocking(runner.shutdown, bound=rt.BOUND)
+        if o.kind != "return":
+            problems.append("shutdown() did not return within %ss (%s %r)" % (rt.BOUND, o.kind, o.exc))
+        out = w.join(bound=5 if o.kind == "return" else 1)
+        if out.kind != "return":
+            problems.append("accept() did not return normally after shutdown (%s %r)" % (out.kind, out.exc))
+    finally:
+        try:
+            w.cleanup()
+        except Exception as e:
+            problems.append("cleanup failed: %s" % e)
+            return problems
+    # restart: a new runner can accept again
+    w2 = rt.World(accept_delay=0.02)
+    try:
+        w2.start()
+        if not w2.wait_running(bound=10):
+            problems.append("a new runner could not accept after the first one ended")
+    finally:
+        try:
+            w2.cleanup()
+        except Exception as e:
+            problems.append("cleanup of the second runner failed: %s" % e)
+    return problems
+
+
+POPULATIONS = ("none", "asyncio_sleeping", "asyncio_successor", "asyncio_successor_chain", "trio_sleeping",
+               "thread_blocked", "mixed")
+
+
+def extra(tier, seed):
+    """enumerated, concrete, one schedule each: shutdown returns, accept ends normally, restart possible"""
+    violations = []
+    for pop in POPULATIONS:
+        problems = _lifecycle_scenario(pop)
+        if problems:  # confirm once more before believing it (timing)
+            problems = _lifecycle_scenario(pop) if "poisoned" not in " ".join(problems) else problems
+        for msg in problems[:1]:
+            violations.append({"harness": "lifecycle_scenario", "label": "shutdown completes and restart is possible (enumerated scenario)",
+                               "inputs": {"population": pop, "problem": msg}, "params": {}, "status": "confirmed",
+                               "kind": "custom", "module": MOD, "property": PROPERTY})
+        if problems and any("cleanup" in p for p in problems):
+            break
+    return {"violations": violations, "enumerated_lifecycle_scenarios": list(POPULATIONS),
+            "enumerated_lifecycle_note": "concrete real-runtime scenarios on one OS schedule each: NOT solver-decided, "
+                                         "bound %ss, re-run once before a problem is believed" % 20}
+
+
+def replay(v):
+    problems = _lifecycle_scenario(v["inputs"]["population"])
+    print(problems)
+    print("REPRODUCED" if problems else "not reproduced on this tree")
+    return 1 if problems else 0
+
+
 PREDICATES = {}
